@@ -14,6 +14,7 @@ CONSTANTS
  InlineData = TRUE
  Conc = 64
  Probes = TRUE
+ Exts = {TRUE, FALSE}
 INIT GInit
 NEXT GNext
 INVARIANTS Emit
